@@ -32,6 +32,7 @@ class Interp(Ops, ExprMixin, ContainerMixin, StmtMixin, CallMixin, BuiltinMixin)
         self.ids: dict[int, int] = {}
         self.spec_uses_contracts = False
         self.open_findings = None
+        self.recur_done: dict[Any, set] = {}
 
     def reset_path(self) -> None:
         """Per-path interpreter state (global caches hold immutable values only... enum members
@@ -42,3 +43,4 @@ class Interp(Ops, ExprMixin, ContainerMixin, StmtMixin, CallMixin, BuiltinMixin)
         self.depth = 0
         self.effects = []
         self.ids = {}
+        self.recur_done = {}
